@@ -16,7 +16,7 @@
 (***************************************************************************)
 EXTENDS GT, FiniteSets
 
-CONSTANTS Family, Depth, MaxHeap, MaxR, Ds, InitKinds, FactorKinds, CondKinds, RInit, SampleMod, SampleRes
+CONSTANTS Family, Depth, MaxHeap, MaxR, Ds, InitKinds, FactorKinds, CondKinds, RInit, SampleMod, SampleRes, Rich
 
 n == Len(hist)
 NInit == 2
@@ -38,10 +38,14 @@ NewOfKind(k, d, R, s) ==
 
 Room == Len(heap) < MaxHeap
 
-\* index patterns for slicing an object with R components: last, first twice, reversed pair, negative index
+\* index patterns for slicing an object with R components (1-based positions; repetitions, permutations) and the
+\* index array handed to the code (0-based; positions in the upper half are addressed by negative indices)
 SlicePatterns(R) ==
-    {<<R>>} \cup (IF R >= 2 THEN {<<1, 1>>, <<2, 1>>} ELSE {<<1, 1>>})
-CodeIdx(idx, R) == [k \in 1..Len(idx) |-> IF idx[k] = R THEN -1 ELSE idx[k] - 1]   \* the last component is addressed as -1
+    IF ~Rich THEN {<<R>>} \cup (IF R >= 2 THEN {<<1, 1>>, <<2, 1>>} ELSE {<<1, 1>>})
+    ELSE CASE R = 1 -> {<<1>>, <<1, 1>>}
+           [] R = 2 -> {<<2>>, <<2, 1>>, <<1, 1, 2>>}
+           [] OTHER -> {<<R>>, <<R, 1>>, <<2, R, 1>>, <<1, R, R>>, <<R - 1, 1>>}
+CodeIdx(idx, R) == [k \in 1..Len(idx) |-> IF 2 * idx[k] > R THEN idx[k] - 1 - R ELSE idx[k] - 1]
 
 \* The session is pipeline shaped: operations act on the most recent object `cur` (and on the two initial
 \* objects 1, 2 as second operands); cache-warming queries may hit the initial measure or the current object.
